@@ -503,6 +503,25 @@ def check(tier, seed):
         else:
             run.violation(oid, what, {}, False)
     run.trusted("vf/ref_validate.py: the 26 validation rules of section 5 as comprehension-style predicates (276 self-test cases incl. the specification's own examples)")
+    # frame: validating a document writes nothing into the schema or the document (no memo on either, no marks on nodes): the verdict is a function of the two as they
+    # are now, whatever was validated before (vf/aliascheck.py; one obligation per function / method of py_gql.validation; accumulator parameters are not protected)
+    import importlib as _il, inspect as _inspect, pkgutil as _pk
+    import py_gql.validation as _V
+    from vf import aliascheck
+    _mods = [_V] + [_il.import_module(m.name) for m in _pk.walk_packages(_V.__path__, _V.__name__ + ".")]
+    _funcs = []
+    for _M in _mods:
+        _short = _M.__name__.split("py_gql.")[-1]
+        for _n, _o in vars(_M).items():
+            if _inspect.isfunction(_o) and _o.__module__ == _M.__name__:
+                _funcs.append(("%s.%s" % (_short, _n), _o))
+            if _inspect.isclass(_o) and _o.__module__ == _M.__name__:
+                _funcs += [("%s.%s.%s" % (_short, _n, _k), _f) for _k, _f in vars(_o).items() if _inspect.isfunction(_f)]
+    if len(_funcs) < 100:
+        raise MachineryDefect("only %d functions found in py_gql.validation" % len(_funcs))
+    _PROTECTED = ("schema", "document", "doc", "node", "ast_node", "definition", "operation", "fragment", "selection_set", "type_", "type_info", "variables", "ctx_schema")
+    aliascheck.account(run, aliascheck.obligations(_funcs, "validate_ast", "validation leaves a trace on the schema or the document, so a later verdict (or execution) depends on the history",
+                                                   protected=lambda a: a in _PROTECTED))
     return run.finish("other", "_types_conflict proved equal to SameResponseShape on types for all type expressions (Engine A, induction through its own "
                                "contract); bounded stand-in: verdict equality with a reference implementation of the specification's validation rules, attribution of "
                                "labelled violations, and verdict invariance under reordering / renaming / re-spacing (Schema.is_subtype, used by the "
